@@ -439,7 +439,10 @@ package iscp
 //@   ghostvar handed bool = false
 //@   after send dpgCh: handed = true
 //@   ensures (result == nil) == handed
-//@   assert send dpgCh: v != nil && v.DataID == dataID && v.DataPoints == dps
+//@   assert send dpgCh: v != nil && v.DataID == dataID && len(v.DataPoints) == len(dps) && forall(i, int, imp(0 <= i && i < len(dps), v.DataPoints[i] == dps[i]))
+// ... in a slice of its own, allocated by this call: the flush loop reads the group after
+// WriteDataPoints has returned, when the caller may already be reusing its slice for the next batch
+//@   assert send dpgCh: len(dps) == 0 || arrayof(v.DataPoints) > old(allocmark())
 
 // Ownership of the buffered slices (C01: a buffered point cannot be changed or lost because the
 // caller reuses its slice). `owned(a)` is a ghost predicate on backing arrays: every array the
